@@ -70,12 +70,17 @@ def native_judge(cases_meta):
 RNG_SITES = [  # (lat, lon, gmt, params, start, end): ranges that cross into / out of the twilight-less season and year ends
     (39.0, -77.0, -5.0, {"method": "Isna"}, "2023-12-20", "2024-01-10"),
     (51.5074, -0.1278, 1.0, {"method": "Mwl"}, "2024-07-01", "2024-08-31"),
-    (51.5074, -0.1278, 1.0, {"method": "Mwl", "ext": "NearestGoodDayAllPrayersAlways"}, "2024-05-01", "2024-06-15"),
     (-54.8, -68.3, -3.0, {"method": "Mwl"}, "2024-12-15", "2025-02-15"),
-    (60.17, 24.94, 2.0, {"method": "Isna", "ext": "SeventhOfNightFajrIshaInvalid"}, "2023-04-01", "2023-05-10"),
-    (64.1, -21.9, 0.0, {"method": "Egyptian", "ext": "AngleBased"}, "2024-02-20", "2024-03-31"),
     (21.4, 39.8, 3.0, {"method": "UmmAlQurra"}, "2024-02-25", "2024-03-05"),
 ]
+# every extreme-latitude policy once at a place and season where it is exercised (state carried from day to day inside the range loop -
+# cached ephemeris, reused parameters - tends to be visible under one policy family only)
+for _pol in ("None", "AngleBased", {"NearestLatitudeAllPrayersAlways": 45.0}, {"NearestLatitudeFajrIshaAlways": 45.0}, {"NearestLatitudeFajrIshaInvalid": 48.5},
+             "NearestGoodDayAllPrayersAlways", "NearestGoodDayFajrIshaInvalid", "SeventhOfNightFajrIshaAlways", "SeventhOfNightFajrIshaInvalid",
+             "SeventhOfDayFajrIshaAlways", "SeventhOfDayFajrIshaInvalid", "HalfOfNightFajrIshaAlways", "HalfOfNightFajrIshaInvalid",
+             "MinutesFromMaghribFajrIshaAlways", "MinutesFromMaghribFajrIshaInvalid"):
+    RNG_SITES.append((59.91, 10.75, 1.0, {"method": "Isna", "ext": _pol}, "2024-04-10", "2024-05-05"))
+    RNG_SITES.append((-53.2, -70.9, -3.0, {"method": "Egyptian", "ext": _pol}, "2024-02-18", "2024-03-08"))
 
 
 def rng_vs_single(rep, sites=RNG_SITES):
